@@ -12,6 +12,10 @@ func propC03(c *Ctx) propInfo {
 	c.lossyConversions(excC03Lossy, "tlb", "wallet", "ton", "tl")
 	c.sumAltConsistency("E12.sum-alt", "tlb", "wallet", "abi", "ton")
 	c.wholeCellValues("E14.codec-engine")
+	c.partialAssign("E2.R-partial-assign", "tlb", "wallet", "ton", "abi")
+	c.floor("E2.R-partial-assign", 1)
+	c.freshDecodeTargets("E2.R-staleloop", "tlb", "wallet", "abi", "ton", "liteapi")
+	c.floor("E2.R-staleloop", 6)
 	c.copyLiterals("E12.copy-literal", map[string]string{}, "tlb", "wallet", "ton", "abi")
 	c.floor("E12.copy-literal", 1)
 	c.floor("E12.sum-alt", 5)
@@ -20,6 +24,7 @@ func propC03(c *Ctx) propInfo {
 	c.cursorFreeEncoders("E10.cursor-free-encode", excCursorFree, "tlb", "wallet", "abi")
 	c.floor("E10.cursor-free-encode", 1)
 	c.floor("E2.R-lossyconv", 4)
+	c.cursorPairing() // tlb.Any decodes "the rest of the cell" through CopyRemaining
 	return propInfo{
 		explanation: "Static structural clauses of C03 (DESIGN.md §4 C03): tag hygiene over every struct type of the TL-B universe (tags parse under the codec's grammar, sum types fully tagged and prefix-free in first-match order, field kinds supported in both directions, no unexported field in a reflectively coded struct, custom codecs two-sided), hand-written Marshal/Unmarshal pairs emit and consume the same event sequences, generated integer family widths agree on both sides, no read result or error is dropped in codecs. Decides these necessary conditions, not value equality after a round trip.",
 	}
@@ -27,8 +32,8 @@ func propC03(c *Ctx) propInfo {
 
 var excC03Lossy = map[string]string{
 	"tl.Marshal uint64->uint32 of reflect.Value.Uint()":  "inside case reflect.Uint32: Value.Uint() of a uint32 fits",
-	"tl.Marshal int64->int32 of reflect.Value.Int()":    "inside case reflect.Int32: Value.Int() of an int32 fits",
-	"tl.EncodeLength int->uint32 of (i<<8)":             "TL byte strings are limited to 2^24-1 bytes by the 3-byte length; callers pass len() of in-memory data",
+	"tl.Marshal int64->int32 of reflect.Value.Int()":     "inside case reflect.Int32: Value.Int() of an int32 fits",
+	"tl.EncodeLength int->uint32 of (i<<8)":              "TL byte strings are limited to 2^24-1 bytes by the 3-byte length; callers pass len() of in-memory data",
 	"tl.encodeVector int->uint32 of reflect.Value.Len()": "element count of an in-memory slice; a slice with 2^32 elements cannot be encoded anyway",
 }
 
